@@ -67,9 +67,16 @@ func (g *aolGen) topic() string {
 
 func (g *aolGen) text(max int) string {
 	if g.clean {
+		if genK3 && g.r.Chance(8) {
+			return pick(g.r, []string{"\xff", "a\xc3", "\xef\xbf\xbd"})
+		}
 		return pick(g.r, []string{"", "", "", "x", "hello", "desc-1", "a b", "caf\xc3\xa9"})
 	}
-	switch g.r.Intn(12) {
+	k := g.r.Intn(12)
+	if k == 4 && !genK3 {
+		k = 5
+	}
+	switch k {
 	case 0:
 		return ""
 	case 1:
@@ -78,6 +85,9 @@ func (g *aolGen) text(max int) string {
 		return strings.Repeat("d", max+1)
 	case 3:
 		return "caf\xc3\xa9 \x00\t"
+	case 4:
+		// bytes that are not UTF-8: accepted by validation, rewritten by the JSON layer of a genesis export (K3)
+		return pick(g.r, []string{"\xff", "a\xc3", "ok\xed\xa0\x80", "\xf0\x9f\x98", "\xef\xbf\xbd", strings.Repeat("\xff", max)})
 	default:
 		return pick(g.r, []string{"x", "hello", "desc-1", "a b"})
 	}
